@@ -95,6 +95,11 @@ structure ScJ where
   /-- `[i, j]`: run number i and run number j are runs of two nodes that were configured with the same settings and
       functions through different construction styles; node ids apart, their observations must be the same (C19) -/
   pairs : Option (List (List Nat)) := none
+  /-- per-node default scripts (`v` is ignored): the script of every visit of node `n` that has no script of its own — lets a
+      long loop be written with two scripts instead of thousands -/
+  nodeDefaults : Option (List LeafScriptJ) := none
+  /-- an upper bound on the number of node visits of a run (only given by generators of long paths: the model's fuel) -/
+  longest : Option Nat := none
   deriving FromJson, ToJson
 
 structure RunObsJ where
@@ -340,8 +345,12 @@ def process (sc : ScJ) (obs : ObsJ) : Except String Verdict := do
     match leafScriptOf j with | some s => pure ((j.n, j.v), s) | none => throw s!"bad leaf script {j.n}.{j.v}"
   let batchScripts ← sc.batchScripts.mapM fun j =>
     match batchScriptOf j with | some s => pure ((j.n, j.v), s) | none => throw s!"bad batch script {j.n}.{j.v}"
+  let nodeDefaults ← (sc.nodeDefaults.getD []).mapM fun j =>
+    match leafScriptOf j with | some s => pure (j.n, s) | none => throw s!"bad default script of node {j.n}"
   let leafBeh : NodeId → Nat → LeafScript := fun n v =>
-    match leafScripts.find? (fun p => p.1 == (n, v)) with | some p => p.2 | none => defaultLeafScript
+    match leafScripts.find? (fun p => p.1 == (n, v)) with
+    | some p => p.2
+    | none => match nodeDefaults.find? (fun p => p.1 == n) with | some p => p.2 | none => defaultLeafScript
   let batchBeh : NodeId → Nat → BatchScript := fun n v =>
     match batchScripts.find? (fun p => p.1 == (n, v)) with | some p => p.2 | none => defaultBatchScript
   let cancelFree := ctx0 == .live
@@ -376,7 +385,7 @@ def process (sc : ScJ) (obs : ObsJ) : Except String Verdict := do
       let env : Env := { kind, arena := arenaFn, leafBeh, batchBeh }
       let st0 : RunSt := { ctx := ctx0, visits := vis }
       -- the recursion depth grows with the length of the path: long scripted loops get the fuel they need
-      let fuel := max FUEL (3 * sc.leafScripts.length + 200)
+      let fuel := max FUEL (3 * (sc.leafScripts.length + (sc.longest.getD 0)) + 200)
       let r := runNode env fuel root 0 st0
       let m := obsOf r
       let flat := obsOf (Flat.run env (fuel * 10) root 0 st0)
